@@ -320,6 +320,13 @@ def run(tier, seed):
     r = tlc.require_ok(tlc.run('DbLoad', cfg='DbLoadMC', timeout=900), 'DbLoad')
     tlc.check_coverage(r, ACTIONS, 'DbLoad')
     chk.add_tlc(r, 'DbLoad', 'DbLoadMC', ACTIONS)
+    # unbounded layer: DbLoad implements the integer abstraction DbLoadInt (TLC), whose inductive invariant holds for
+    # EVERY number of new rows and every failure point (Apalache); a commit reachable mid-load must break the proof
+    from harness import apalache
+    rr = tlc.require_ok(tlc.run('DbLoadRef', cfg='DbLoadRef', timeout=900), 'DbLoadRef')
+    chk.add_tlc(rr, 'DbLoadRef', 'DbLoadRef')
+    apalache.inductive(chk, 'DbLoadInt', cinit=None,
+                       negative=[('Commit ==\n  /\\ pc = "commit"', 'Commit ==\n  /\\ pc \\in {"commit", "insert"}')])
     rg = tlc.run('DbLoad', cfg='DbLoadGen', timeout=900, workers=1, coverage=False)
     if rg.error or rg.violated:
         raise tlc.MachineryError('DbLoadGen: %s' % (rg.error or rg.violated))
